@@ -16,9 +16,9 @@ Model/Glob.vos Model/Glob.vok Model/Glob.required_vos: Model/Glob.v Base/Bytes.v
 Model/Strings.vo Model/Strings.glob Model/Strings.v.beautified Model/Strings.required_vo: Model/Strings.v Base/Bytes.vo Model/Resp.vo Model/Types.vo Model/Glob.vo
 Model/Strings.vio: Model/Strings.v Base/Bytes.vio Model/Resp.vio Model/Types.vio Model/Glob.vio
 Model/Strings.vos Model/Strings.vok Model/Strings.required_vos: Model/Strings.v Base/Bytes.vos Model/Resp.vos Model/Types.vos Model/Glob.vos
-Model/Lists.vo Model/Lists.glob Model/Lists.v.beautified Model/Lists.required_vo: Model/Lists.v Base/Bytes.vo Model/Resp.vo Model/Types.vo
-Model/Lists.vio: Model/Lists.v Base/Bytes.vio Model/Resp.vio Model/Types.vio
-Model/Lists.vos Model/Lists.vok Model/Lists.required_vos: Model/Lists.v Base/Bytes.vos Model/Resp.vos Model/Types.vos
+Model/Lists.vo Model/Lists.glob Model/Lists.v.beautified Model/Lists.required_vo: Model/Lists.v Base/Bytes.vo Model/Resp.vo Model/Types.vo Model/Strings.vo
+Model/Lists.vio: Model/Lists.v Base/Bytes.vio Model/Resp.vio Model/Types.vio Model/Strings.vio
+Model/Lists.vos Model/Lists.vok Model/Lists.required_vos: Model/Lists.v Base/Bytes.vos Model/Resp.vos Model/Types.vos Model/Strings.vos
 Model/ZSets.vo Model/ZSets.glob Model/ZSets.v.beautified Model/ZSets.required_vo: Model/ZSets.v Base/Bytes.vo Model/Resp.vo Model/Types.vo
 Model/ZSets.vio: Model/ZSets.v Base/Bytes.vio Model/Resp.vio Model/Types.vio
 Model/ZSets.vos Model/ZSets.vok Model/ZSets.required_vos: Model/ZSets.v Base/Bytes.vos Model/Resp.vos Model/Types.vos
@@ -52,6 +52,9 @@ Model/RunScan.vos Model/RunScan.vok Model/RunScan.required_vos: Model/RunScan.v 
 Model/Run.vo Model/Run.glob Model/Run.v.beautified Model/Run.required_vo: Model/Run.v Base/Bytes.vo Model/Resp.vo Model/RunBase.vo Model/RunSrv.vo Model/RunPubSub.vo Model/RunScan.vo
 Model/Run.vio: Model/Run.v Base/Bytes.vio Model/Resp.vio Model/RunBase.vio Model/RunSrv.vio Model/RunPubSub.vio Model/RunScan.vio
 Model/Run.vos Model/Run.vok Model/Run.required_vos: Model/Run.v Base/Bytes.vos Model/Resp.vos Model/RunBase.vos Model/RunSrv.vos Model/RunPubSub.vos Model/RunScan.vos
+Spec/Collections.vo Spec/Collections.glob Spec/Collections.v.beautified Spec/Collections.required_vo: Spec/Collections.v Base/Bytes.vo Model/Resp.vo Model/Types.vo
+Spec/Collections.vio: Spec/Collections.v Base/Bytes.vio Model/Resp.vio Model/Types.vio
+Spec/Collections.vos Spec/Collections.vok Spec/Collections.required_vos: Spec/Collections.v Base/Bytes.vos Model/Resp.vos Model/Types.vos
 Proofs/BytesFacts.vo Proofs/BytesFacts.glob Proofs/BytesFacts.v.beautified Proofs/BytesFacts.required_vo: Proofs/BytesFacts.v Base/Bytes.vo
 Proofs/BytesFacts.vio: Proofs/BytesFacts.v Base/Bytes.vio
 Proofs/BytesFacts.vos Proofs/BytesFacts.vok Proofs/BytesFacts.required_vos: Proofs/BytesFacts.v Base/Bytes.vos
@@ -61,6 +64,12 @@ Proofs/RespFacts.vos Proofs/RespFacts.vok Proofs/RespFacts.required_vos: Proofs/
 Proofs/StringsFacts.vo Proofs/StringsFacts.glob Proofs/StringsFacts.v.beautified Proofs/StringsFacts.required_vo: Proofs/StringsFacts.v Base/Bytes.vo Model/Resp.vo Model/Types.vo Model/Glob.vo Model/Strings.vo Proofs/BytesFacts.vo
 Proofs/StringsFacts.vio: Proofs/StringsFacts.v Base/Bytes.vio Model/Resp.vio Model/Types.vio Model/Glob.vio Model/Strings.vio Proofs/BytesFacts.vio
 Proofs/StringsFacts.vos Proofs/StringsFacts.vok Proofs/StringsFacts.required_vos: Proofs/StringsFacts.v Base/Bytes.vos Model/Resp.vos Model/Types.vos Model/Glob.vos Model/Strings.vos Proofs/BytesFacts.vos
+Proofs/ListsFacts.vo Proofs/ListsFacts.glob Proofs/ListsFacts.v.beautified Proofs/ListsFacts.required_vo: Proofs/ListsFacts.v Base/Bytes.vo Model/Resp.vo Model/Types.vo Model/Strings.vo Model/Lists.vo Spec/Collections.vo Proofs/BytesFacts.vo Proofs/StringsFacts.vo
+Proofs/ListsFacts.vio: Proofs/ListsFacts.v Base/Bytes.vio Model/Resp.vio Model/Types.vio Model/Strings.vio Model/Lists.vio Spec/Collections.vio Proofs/BytesFacts.vio Proofs/StringsFacts.vio
+Proofs/ListsFacts.vos Proofs/ListsFacts.vok Proofs/ListsFacts.required_vos: Proofs/ListsFacts.v Base/Bytes.vos Model/Resp.vos Model/Types.vos Model/Strings.vos Model/Lists.vos Spec/Collections.vos Proofs/BytesFacts.vos Proofs/StringsFacts.vos
+Proofs/MixedFacts.vo Proofs/MixedFacts.glob Proofs/MixedFacts.v.beautified Proofs/MixedFacts.required_vo: Proofs/MixedFacts.v Base/Bytes.vo Model/Resp.vo Model/Types.vo Model/Strings.vo Model/Lists.vo Spec/Collections.vo Proofs/BytesFacts.vo Proofs/ListsFacts.vo
+Proofs/MixedFacts.vio: Proofs/MixedFacts.v Base/Bytes.vio Model/Resp.vio Model/Types.vio Model/Strings.vio Model/Lists.vio Spec/Collections.vio Proofs/BytesFacts.vio Proofs/ListsFacts.vio
+Proofs/MixedFacts.vos Proofs/MixedFacts.vok Proofs/MixedFacts.required_vos: Proofs/MixedFacts.v Base/Bytes.vos Model/Resp.vos Model/Types.vos Model/Strings.vos Model/Lists.vos Spec/Collections.vos Proofs/BytesFacts.vos Proofs/ListsFacts.vos
 Proofs/ServerFacts.vo Proofs/ServerFacts.glob Proofs/ServerFacts.v.beautified Proofs/ServerFacts.required_vo: Proofs/ServerFacts.v Base/Bytes.vo Generated.vo Model/Resp.vo Model/Types.vo Model/Glob.vo Model/Strings.vo Model/Lists.vo Model/ZSets.vo Model/Streams.vo Model/Server.vo Proofs/BytesFacts.vo Proofs/StringsFacts.vo
 Proofs/ServerFacts.vio: Proofs/ServerFacts.v Base/Bytes.vio Generated.vio Model/Resp.vio Model/Types.vio Model/Glob.vio Model/Strings.vio Model/Lists.vio Model/ZSets.vio Model/Streams.vio Model/Server.vio Proofs/BytesFacts.vio Proofs/StringsFacts.vio
 Proofs/ServerFacts.vos Proofs/ServerFacts.vok Proofs/ServerFacts.required_vos: Proofs/ServerFacts.v Base/Bytes.vos Generated.vos Model/Resp.vos Model/Types.vos Model/Glob.vos Model/Strings.vos Model/Lists.vos Model/ZSets.vos Model/Streams.vos Model/Server.vos Proofs/BytesFacts.vos Proofs/StringsFacts.vos
@@ -79,6 +88,9 @@ Props/C20.vos Props/C20.vok Props/C20.required_vos: Props/C20.v Base/Bytes.vos M
 Props/C01.vo Props/C01.glob Props/C01.v.beautified Props/C01.required_vo: Props/C01.v Base/Bytes.vo Model/Resp.vo Model/Types.vo Model/Glob.vo Model/Strings.vo Proofs/BytesFacts.vo Proofs/StringsFacts.vo
 Props/C01.vio: Props/C01.v Base/Bytes.vio Model/Resp.vio Model/Types.vio Model/Glob.vio Model/Strings.vio Proofs/BytesFacts.vio Proofs/StringsFacts.vio
 Props/C01.vos Props/C01.vok Props/C01.required_vos: Props/C01.v Base/Bytes.vos Model/Resp.vos Model/Types.vos Model/Glob.vos Model/Strings.vos Proofs/BytesFacts.vos Proofs/StringsFacts.vos
+Props/C03.vo Props/C03.glob Props/C03.v.beautified Props/C03.required_vo: Props/C03.v Base/Bytes.vo Model/Resp.vo Model/Types.vo Model/Strings.vo Model/Lists.vo Spec/Collections.vo Proofs/BytesFacts.vo Proofs/ListsFacts.vo Proofs/MixedFacts.vo Proofs/StringsFacts.vo
+Props/C03.vio: Props/C03.v Base/Bytes.vio Model/Resp.vio Model/Types.vio Model/Strings.vio Model/Lists.vio Spec/Collections.vio Proofs/BytesFacts.vio Proofs/ListsFacts.vio Proofs/MixedFacts.vio Proofs/StringsFacts.vio
+Props/C03.vos Props/C03.vok Props/C03.required_vos: Props/C03.v Base/Bytes.vos Model/Resp.vos Model/Types.vos Model/Strings.vos Model/Lists.vos Spec/Collections.vos Proofs/BytesFacts.vos Proofs/ListsFacts.vos Proofs/MixedFacts.vos Proofs/StringsFacts.vos
 Props/C17.vo Props/C17.glob Props/C17.v.beautified Props/C17.required_vo: Props/C17.v Base/Bytes.vo Generated.vo Model/Resp.vo Model/Types.vo Model/Server.vo Proofs/ServerFacts.vo
 Props/C17.vio: Props/C17.v Base/Bytes.vio Generated.vio Model/Resp.vio Model/Types.vio Model/Server.vio Proofs/ServerFacts.vio
 Props/C17.vos Props/C17.vok Props/C17.required_vos: Props/C17.v Base/Bytes.vos Generated.vos Model/Resp.vos Model/Types.vos Model/Server.vos Proofs/ServerFacts.vos
